@@ -332,7 +332,9 @@ pub fn print_image(img: &Option<(u8, u8, u8)>, out: &mut Vec<u8>) {
             for _ in 0..(*w as usize * *h as usize) {
                 out.push(*b);
             }
-            out.extend_from_slice(b"\nEI");
+            // any white-space character may precede EI
+            out.push(b"\n \r\t"[(*w as usize + *h as usize + *b as usize) % 4]);
+            out.extend_from_slice(b"EI");
         }
         // no /H: `inline_image` fails after it has found the end of the data
         None => out.extend_from_slice(b"BI /W 1 /BPC 8 /CS /G ID A\nEI"),
